@@ -122,6 +122,8 @@ func portfolio(file string, seed, timeoutS int, only string) solveOut {
 	return last
 }
 
+var heavySem = make(chan struct{}, 3)
+
 type solveOpts struct {
 	outDir   string
 	seed     int
@@ -173,7 +175,10 @@ func solveOne(r *FuncResult, o *Obligation, opt solveOpts) {
 	// fast attempt, then the full race
 	res := portfolio(file, opt.seed, min(4, opt.timeoutS), "z3-new")
 	if res.verdict != "unsat" && res.verdict != "sat" {
+		// the full race starts six solver processes: at most three races at a time, so that each keeps real CPU time
+		heavySem <- struct{}{}
 		res = portfolio(file, opt.seed, opt.timeoutS, "")
+		<-heavySem
 	}
 	o.Result, o.Backend, o.Ms, o.Detail = res.verdict, res.solver, res.ms, firstLines(res.raw, 6)
 	if opt.confirm && o.Result == "unsat" && o.Expect == "unsat" {
